@@ -81,6 +81,9 @@ func cmdFunc(args []string) {
 				fmt.Printf("%s.%s: trusted (not verified)\n", *pkg, k)
 				continue
 			}
+			if fct.Inline && len(fct.Ensures) == 0 {
+				continue // verified as part of its callers
+			}
 			fi := V.funcsByKey[*pkg+"."+k]
 			if fi == nil {
 				fmt.Printf("%s: no such function\n", k)
